@@ -21,39 +21,57 @@ S_PROFILES = [(), (1,), (4,), (5,), (1, 4), (2, 3, 5), (1, 2, 3, 4, 5)]
 class C06(Prop):
     id = "C06"
     props = "C06_Props"
-    coq_files = ("Base", "C06_Model", "C06_Spec", "C06_Proofs", "C06_Props")
-    models = ("C06_Model",)
+    coq_files = ("Base", "C06_Model", "C06_Load", "C06_Spec", "C06_Proofs", "C06_LoadSpec", "C06_LoadProofs", "C06_Props")
+    models = ("C06_Load",)
     packages = {"cc": "internal/app/connectconformance"}
-    kinds = {"c06.parse": "cc"}
+    kinds = {"c06.parse": "cc", "c06.load": "cc", "c06.efn": "cc"}
     rule = ("c06.parse: a Config message (features, include_cases, exclude_cases) rendered as JSON/YAML text in one of 8 styles and "
             "parsed by the real parseConfig; compared: error-or-(count, sorted set of the ten-field config cases). Generators: every "
             "tri-state of the seven support flags (3^7) x sampled version/protocol/stream-type profiles; the full profile product "
             "under 12 flag settings; every single include/exclude entry over version x protocol x stream type x use_tls x "
             "use_tls_client_certs (x limit/codec/compression samples) under 8 feature profiles; random configs with 0-3 include "
             "and 0-3 exclude entries, lists with duplicates, *_UNSPECIFIED and CODEC_TEXT members. "
+            "c06.load: the loader glue - the real Run (Verbose, a --test-file that does not exist, so it stops after the config step) over a real "
+            "scratch directory: no --conf / regular file / named pipe (stat size 0) / missing file / directory, and parseConfig called directly; "
+            "the document is no bytes, the rendering of a message, or one of 8 texts protoyaml rejects (checked on every use); compared: "
+            "error-or-number of config cases (the first number Run logs). c06.efn: the real internal.EnsureFileName on message x file name "
+            "(all strings over {a,b} up to length 4 x 3, and realistic ones); compared: (non-nil, result mentions the file, result mentions the message). "
             "non-trivial = every distinct config (both error and non-error outcomes are observable results)")
     trusted_base = ("Coq 8.16.1 kernel (vm_compute used in examples only)", "extraction (ExtrOcamlBasic only) + ocaml/driver.ml",
                     "vlib generators/comparator, Go overlay harness file (renders the message with protojson, checks that protoyaml reads it back)",
-                    "modelled not verified: protoyaml/protojson text syntax, Go map semantics (set of comparable structs)")
+                    "modelled not verified: protoyaml/protojson text syntax (the decoder is a parameter of the loader theorems; per case the harness "
+                    "checks how protoyaml reads the document it wrote), Go map semantics (set of comparable structs), os.ReadFile / the file system "
+                    "(an object has a reported size and contents; reading ignores the size)",
+                    "not covered: how the command line chooses the file handed to Run (cmd/connectconformance/main.go flag wiring)")
     assumptions = ("enum numbers in a configuration are those declared in config.proto (0..3 / 0..6 / 0..5); the theorems hold for any N, "
                    "the differential run only exercises declared numbers",
                    "Go map iteration order does not influence the compared observable (the case slice is compared as a sorted set)")
     level_text = ("Machine-checked proof (Coq) that the model of parseConfig/resolveFeatures/computeCasesFromFeatures/resolveCase returns, "
                   "for every configuration, exactly the set {features-implied or matching an include entry} minus {matching an exclude "
                   "entry}, that every returned case is internally possible, and that an error is returned exactly for contradictory or "
-                  "empty configurations; the model is tied to the Go code by a bounded-exhaustive plus random differential run through "
-                  "the real YAML parser on every check.")
+                  "empty configurations; and that the loader glue (Run's reading of the --conf file, parseConfig's decoding step, "
+                  "internal.EnsureFileName) parses exactly the bytes of the named file whatever size is reported for it, turns an unreadable "
+                  "or undecodable file into an error and otherwise returns the set the file's contents denote (load_exact, load_err_iff). "
+                  "The model is tied to the Go code by a bounded-exhaustive plus random differential run through "
+                  "the real YAML parser, the real Run over real files / named pipes and the real EnsureFileName on every check.")
     level_note = ("Nothing partial: parse_ok_iff, parse_valid, parse_err_iff, parse_ok_when hold for every configuration (no well-formedness "
                   "hypothesis: lists with *_UNSPECIFIED/CODEC_TEXT members and duplicate members are covered); observable_faithful shows the "
                   "compared key list determines the case set for enum numbers below 16. Trusted: Coq kernel, extraction, OCaml driver, "
                   "harness; the correspondence between model and Go code is sampled (all 3^7 flag tri-states, all single entries over the "
-                  "interacting axes, thousands of random configs), not proved.")
+                  "interacting axes, thousands of random configs; for the loader: 6 ways of naming x 17 documents + random documents through "
+                  "file, pipe and direct call), not proved. The loader theorems hold for every decoder function; which of several --conf "
+                  "occurrences the command line hands to Run is outside the property and not checked (seed C06-18).")
     technique = "Coq proof of model = set-comprehension spec (membership characterisation of the nested loops); differential model-vs-Go correspondence"
 
     def nontrivial(self, case, res):
         return True
 
     def describe(self, case, g, m):
+        if case and case[0] == "c06.load":
+            return ("config loading: the set (or error) that Run / parseConfig computes from the named file differs from the proved "
+                    "model (= the set denoted by the bytes of the file; unreadable / undecodable = error)")
+        if case and case[0] == "c06.efn":
+            return "config loading: internal.EnsureFileName differs from the proved model (an error stays an error and names the file)"
         return ("config expansion: parseConfig differs from the proved model (= features + includes - excludes, "
                 "contradictory/empty rejected)")
 
@@ -66,6 +84,9 @@ class C06(Prop):
 
         def cfg(f, inc=(), exc=()):
             return ["c06.parse", opt(), f, [list(e) for e in inc], [list(e) for e in exc]]
+
+        # L. the loader glue (real Run over real files; real EnsureFileName)
+        yield from self.gen_load(rng, quick)
 
         # 0. the four shipped configurations and the empty one
         yield ["c06.parse", 0, features(), [], []]
@@ -153,6 +174,54 @@ class C06(Prop):
                              c=rng.choice([0, 0, 1, 2]), z=rng.choice([0, 0, 1, 2]), s=rng.choice([0] + list(ss or (1, 2, 3, 4, 5))),
                              tls=rng.choice([0, 0, 1, 2]), certs=rng.choice([0, 0, 0, 1, 2]), limit=rng.choice([0, 0, 1, 2]))
             yield cfg(f, [near() for _ in range(rng.choice([0, 1, 2]))], [near() for _ in range(rng.choice([0, 1, 2, 3]))])
+
+
+    # ------------------------------------------------------------------
+    NAMES = ["verif.yaml", "c", "conf with space.yaml", "features", "yaml", "7", "A-b_c.1"]
+    N_BAD = 8
+
+    def gen_load(self, rng, quick):
+        """c06.load: how (no --conf / regular file / named pipe / missing / directory / direct parseConfig) x document
+        (no bytes / rendering of a message / rejected by the decoder); c06.efn: message x file name."""
+        one = features(v=(1,), p=(1,), c=(2,), z=(1,), s=(1,), flags=(1, 1, 0, 0, 0, 1, 1))        # 1 case
+        docs = [[0],
+                [1, 0, features(), [], []],                                                          # "{}": 464
+                [1, 4, one, [], []],
+                [1, 1, features(v=(1, 2, 3), p=(1, 2, 3), c=(1, 2), z=(1, 2, 3, 4, 5, 6), flags=(0, 0, 2, 0, 2, 0, 0)), [], []],
+                [1, 6, features(v=(1,)), [entry(v=2)], []],                                          # include extends: 288
+                [1, 2, features(), [], [entry(p=2)]],                                                # exclude removes: 384
+                [1, 5, features(v=(1,), s=(5,)), [], []],                                            # contradictory
+                [1, 3, features(), [], [entry()]],                                                   # empty
+                [1, 7, features(), [entry(v=1, p=2)], []]]                                           # contradictory entry
+        docs += [[2, k] for k in range(self.N_BAD)]
+        for how in range(6):
+            for d in docs:
+                yield ["c06.load", how, rng.choice(self.NAMES), d]
+        # random documents: a pipe and a regular file with the same contents, and the direct call
+        for _ in range(60 if quick else 1500):
+            f = features(v=rng.choice(V_PROFILES), p=rng.choice(P_PROFILES), c=rng.choice([(1,), (), (1, 2)]),
+                         z=rng.choice([(1,), (), (1, 2)]), s=rng.choice(S_PROFILES),
+                         flags=[rng.choice([0, 0, 0, 1, 2]) for _ in range(7)])
+            inc = [entry(v=rng.choice([0, 1, 2, 3]), p=rng.choice([0, 1, 2, 3]), s=rng.choice([0, 1, 4, 5]), tls=rng.choice(FLAGS))
+                   for _ in range(rng.choice([0, 0, 1, 2]))]
+            exc = [entry(v=rng.choice([0, 1, 2, 3]), p=rng.choice([0, 1, 2, 3]), s=rng.choice([0, 1, 4, 5]), tls=rng.choice(FLAGS))
+                   for _ in range(rng.choice([0, 0, 1, 2]))]
+            d = [1, rng.randrange(8), f, inc, exc]
+            name = rng.choice(self.NAMES)
+            for how in (1, 2, 5):
+                yield ["c06.load", how, name, d]
+        # EnsureFileName: every message / file name over {a, b} up to length 4 / 3, and realistic ones
+        alpha = [b"".join(t) for n in range(0, 5) for t in itertools.product((b"a", b"b"), repeat=n)]
+        for m in alpha:
+            for f in alpha:
+                if len(f) <= 3:
+                    yield ["c06.efn", m, f]
+        real = [b"c.yaml", b"/tmp/x/c.yaml", b"conf", b""]
+        msgs = [b"open c.yaml: no such file or directory", b"c.yaml:2:3 unknown field", b"unknown field", b"read /tmp/x/c.yaml: is a directory",
+                b"", b"c.yam", b".yaml", b"x/c.yaml"]
+        for m in msgs:
+            for f in real:
+                yield ["c06.efn", m, f]
 
 
 PROP = C06()
